@@ -18,14 +18,23 @@ ENCODED = [
 class DS:
     """data source of a sampler: only its length matters to the scheduler"""
 
-    def __init__(self, n):
+    def __init__(self, n, tag=0):
         self.n = n
+        self.tag = tag
 
     def __len__(self):
         return self.n
 
     def __getitem__(self, i):
-        return ("item", i)
+        return ("item", self.tag, i)
+
+
+class TagCollator:
+    def __init__(self, tag):
+        self.tag = tag
+
+    def __call__(self, data):
+        return ("collated", self.tag, list(data))
 
 
 class MainProbe:
@@ -60,8 +69,8 @@ def main_content(n, e, pos):
 class SideProbe:
     """sampler of an interleaved config: yields m-1 .. 0 (not sorted on purpose)"""
 
-    def __init__(self, m, extra):
-        self.dataset = DS(m + extra)  # exercised through the `dataset` attribute branch
+    def __init__(self, m, extra, tag=1):
+        self.dataset = DS(m + extra, tag)  # exercised through the `dataset` attribute branch
         self.m = m
         self.passes = 0
 
@@ -169,14 +178,28 @@ def expected_stream(n, extra, b, drop_last, dlbs, kind, value, cfgs, t_from=0):
 def build(n, extra, b, drop_last, dlbs, kind, value, cfgs, log, **start):
     main = MainProbe(n, extra, log)
     configs = [
-        InterleavedSamplerConfig(sampler=SideProbe(c[3], c[5]), every_n_epochs=c[0], every_n_updates=c[1],
-                                 every_n_samples=c[2], batch_size=c[4])
-        for c in cfgs
+        InterleavedSamplerConfig(sampler=SideProbe(c[3], c[5], tag=k + 1), every_n_epochs=c[0], every_n_updates=c[1],
+                                 every_n_samples=c[2], batch_size=c[4], collator=TagCollator(k + 1))
+        for k, c in enumerate(cfgs)
     ]
     kw = {kind: value}
     kw.update(start)
     return InterleavedSampler(main_sampler=main, batch_size=b, configs=configs, drop_last=drop_last,
-                              drop_last_batch_size=dlbs, **kw)
+                              drop_last_batch_size=dlbs, main_collator=TagCollator(0), **kw)
+
+
+def locate(idx, nd, cfgs):
+    """(dataset number, local index) an emitted global index was drawn for, from the offsets the
+    statement promises (config c's range starts after the main dataset and all earlier configs)"""
+    if idx < nd:
+        return 0, idx
+    cur = nd
+    for k, c in enumerate(cfgs):
+        size = c[3] + c[5]
+        if idx < cur + size:
+            return k + 1, idx - cur
+        cur = cur + size
+    return -1, -1
 
 
 def consume(s, exp):
@@ -206,14 +229,31 @@ def cut_batches(stream):
     return out, cur
 
 
+def parse_mask(km):
+    """'eus' -> symbolic values for the three kinds; 'e2s7' -> every_n_epochs=2, every_n_samples=7
+    concrete (division/modulo by a constant keeps the solver's arithmetic linear)"""
+    out = {}
+    k = 0
+    while k < len(km):
+        ch = km[k]
+        k += 1
+        d = ""
+        while k < len(km) and km[k].isdigit():
+            d += km[k]
+            k += 1
+        out[ch] = int(d) if d else None
+    return out
+
+
 def mk_cfgs(kinds, vals):
-    """kinds: tuple per config of a kind-mask string over 'eus' ; vals: flat list of symbolic values
+    """kinds: tuple per config of a kind mask (see parse_mask); vals: flat list of symbolic values
     (ene, enu, ens, m, cbs_or_0, extra) per config -> tuple (ene|None, enu|None, ens|None, m, cbs|None, extra)"""
     cfgs = []
     for i, km in enumerate(kinds):
         ene, enu, ens, m, cbs, ex = vals[6 * i: 6 * i + 6]
-        cfgs.append((ene if "e" in km else None, enu if "u" in km else None, ens if "s" in km else None, m,
-                     cbs if cbs != 0 else None, ex))
+        pm = parse_mask(km)
+        pick = lambda ch, sym: None if ch not in pm else (pm[ch] if pm[ch] is not None else sym)
+        cfgs.append((pick("e", ene), pick("u", enu), pick("s", ens), m, cbs if cbs != 0 else None, ex))
     return cfgs
 
 
@@ -251,12 +291,22 @@ def body_whole(cfg, n, extra, b, drop_last, dlm, value, *vals):
             return fail("batch sampler exception " + type(e).__name__)
         if got != exp_batches:
             return fail("batches differ")
-        # only an epoch's last main batch may be short; side batches never mix with main indices
+        # every batch belongs to one dataset, every index resolves to the dataset/sample it was
+        # drawn for, and the batch is collated by that dataset's collator
         nd = n + extra
-        for bt in got:
-            main_part = [i for i in bt if i < nd]
-            if main_part and len(main_part) != len(bt):
-                return fail("batch mixes datasets")
+        try:
+            for bt in got:
+                where = [locate(i, nd, cfgs) for i in bt]
+                if any(w[0] != where[0][0] for w in where):
+                    return fail("batch mixes datasets")
+                items = [s2.dataset[i] for i in bt]
+                want = [(w[0], ("item", w[0], w[1])) for w in where]
+                if items != want:
+                    return fail("index resolves to the wrong dataset/sample")
+                if s2.collator(items) != ("collated", where[0][0], [("item", w[0], w[1]) for w in where]):
+                    return fail("batch collated by the wrong collator")
+        except Exception as e:
+            return fail("resolution exception " + type(e).__name__)
     return True
 
 
